@@ -271,14 +271,93 @@ def resolve(lines, anchor, src):
     return pos
 
 
+LOST = []   # filled by weave(): [{"anchor": ..., "function": ..., "dropped_harnesses": [...]}] for tolerated lost contract anchors
+
+
+def _harness_regions(L):
+    """(start, end, name, attribute+body text) of every //@harness function in the lines of an append block"""
+    out = []
+    for i, ln in enumerate(L):
+        if not ln.strip().startswith("//@harness"):
+            continue
+        j = i + 1
+        while j < len(L) and not re.match(r"\s*(pub\s+)?fn\s+(\w+)", L[j]):
+            j += 1
+        if j >= len(L):
+            continue
+        name = re.match(r"\s*(pub\s+)?fn\s+(\w+)", L[j]).group(2)
+        indent = len(L[j]) - len(L[j].lstrip())
+        k = j
+        while k < len(L) and not (L[k].startswith(" " * indent + "}") and len(L[k].rstrip()) == indent + 1):
+            k += 1
+        out.append((i, k, name, "\n".join(L[i + 1:k + 1])))
+    return out
+
+
 def weave(dest, overlays, strict=True):
-    """Weave the overlays into the copy at dest. Returns dict file -> number of inserted lines."""
+    """Weave the overlays into the copy at dest. Returns dict file -> number of inserted lines.
+
+    A lost anchor of an *attached function contract* (the function was renamed, removed or its signature line
+    changed) is tolerated: that contract is not attached and every harness that names the function
+    (proof_for_contract / stub_verified / a direct call) is left out; they are listed in LOST and reported as
+    undecided by the runner, the remaining harnesses still run on the changed code. Lost anchors of type
+    definitions (Arbitrary derives) and lost files remain fatal (LostAnchor)."""
+    del LOST[:]
     per_file = {}
     for ov in overlays:
         for a in ov.attaches:
             per_file.setdefault(a.file, {"attach": [], "append": []})["attach"].append(a)
         for a in ov.appends:
             per_file.setdefault(a.file, {"attach": [], "append": []})["append"].append(a)
+    # pre-pass: which attached function contracts have lost their anchor?
+    lost_names = {}
+    for rel, items in sorted(per_file.items()):
+        path = os.path.join(dest, rel)
+        if not os.path.exists(path):
+            continue
+        with open(path, encoding="utf-8") as f:
+            flines = f.read().split("\n")
+        keep = []
+        for a in items["attach"]:
+            try:
+                resolve(flines, a.anchor, a.src)
+                keep.append(a)
+            except LostAnchor as e:
+                m = re.search(r"\bfn\s+(\w+)", a.anchor[-1])
+                if not m or not any("kani::requires" in x or "kani::ensures" in x or "kani::modifies" in x for x in a.lines):
+                    raise
+                lost_names[m.group(1)] = str(e)
+        items["attach"] = keep
+    if lost_names:
+        for name, why in sorted(lost_names.items()):
+            LOST.append({"function": name, "anchor": why, "dropped_harnesses": []})
+        pat = {n: re.compile(r"(?<![\w])" + re.escape(n) + r"\s*(::<[^>]*>)?\s*[()]") for n in lost_names}
+        # functions whose contract loses its proof harness: harnesses using it through stub_verified go too (fixpoint)
+        unproved = {}
+        changed = True
+        while changed:
+            changed = False
+            for rel, items in per_file.items():
+                for a in items["append"]:
+                    drop = []
+                    for (i, k, hname, text) in _harness_regions(a.lines):
+                        hit = [n for n in lost_names if pat[n].search(text)]
+                        hit += [n for n, rx in unproved.items() if rx.search(text)]
+                        if hit:
+                            drop.append((i, k))
+                            for entry in LOST:
+                                if entry["function"] in hit or not set(hit) & set(lost_names):
+                                    if hname not in entry["dropped_harnesses"]:
+                                        entry["dropped_harnesses"].append(hname)
+                                    break
+                            m = re.search(r"proof_for_contract\((.*?)\)\]", text)
+                            if m:
+                                tgt = re.sub(r"::<.*>", "", m.group(1).strip()).split("::")[-1]
+                                if tgt not in unproved:
+                                    unproved[tgt] = re.compile(r"stub_verified\([^)]*(?<![\w])" + re.escape(tgt) + r"\s*(::<[^>]*>)?\s*\)")
+                    if drop:
+                        changed = True
+                        a.lines = [ln for idx, ln in enumerate(a.lines) if not any(i <= idx <= k for (i, k) in drop)]
     stats = {}
     for rel, items in sorted(per_file.items()):
         path = os.path.join(dest, rel)
@@ -319,6 +398,81 @@ def weave(dest, overlays, strict=True):
             f.write(woven)
         stats[rel] = len(out) - len(lines)
     return stats
+
+
+FN_RE = re.compile(r"^\s*(pub(\([^)]*\))?\s+)?(unsafe\s+)?fn\s+(\w+)")
+
+
+def apply_drops(ovs, drop_harnesses, drop_blocks):
+    """Remove harness functions (by name) and whole append blocks ((unit, file, ordinal among the unit's
+    appends to that file)) from the loaded overlays. Used when the woven code does not compile against a
+    changed tree: what does not compile is left out (undecided), the rest still runs."""
+    for ov in ovs.values():
+        seen = {}
+        kept = []
+        for a in ov.appends:
+            n = seen.get(a.file, 0)
+            seen[a.file] = n + 1
+            if (ov.unit, a.file, n) in drop_blocks:
+                ov.harnesses = [h for h in ov.harnesses if not (h.file == a.file and h.name in {r[2] for r in _harness_regions(a.lines)})]
+                continue
+            regs = [r for r in _harness_regions(a.lines) if r[2] in drop_harnesses]
+            if regs:
+                a.lines = [ln for idx, ln in enumerate(a.lines) if not any(i <= idx <= k for (i, k, _n, _t) in regs)]
+                ov.harnesses = [h for h in ov.harnesses if h.name not in drop_harnesses]
+            kept.append(a)
+        ov.appends = kept
+
+
+def locate_errors(scratch, text, overlays, harness_names):
+    """Map rustc errors of a failed build of the woven tree to what must be left out: returns
+    (harness names, append blocks, errors outside woven text)."""
+    drop_h, drop_b, outside = set(), set(), []
+    locs = set()
+    cur_is_error = False
+    for ln in text.splitlines():
+        if re.match(r"^error(\[E\d+\])?:", ln):
+            cur_is_error = True
+        elif re.match(r"^warning", ln):
+            cur_is_error = False
+        m = re.match(r"^\s*--> ([^:]+):(\d+):\d+", ln)
+        if m and cur_is_error:
+            locs.add((m.group(1), int(m.group(2))))
+            cur_is_error = False
+    for rel0, line in sorted(locs):
+        idx = line - 1
+        rel = L = starts = blk = None
+        # diagnostics of the core crate may be relative to core/ (cargo kani runs there)
+        for cand in (rel0, os.path.join("core", rel0)):
+            path = os.path.join(scratch, cand)
+            if not os.path.exists(path):
+                continue
+            with open(path, encoding="utf-8") as f:
+                L1 = f.read().split("\n")
+            # appended blocks start with BEGIN at column 0
+            starts1 = [i for i, x in enumerate(L1) if x.startswith(BEGIN)]
+            blk1 = [i for i in starts1 if i <= idx]
+            if blk1 and idx < len(L1):
+                rel, L, starts, blk = cand, L1, starts1, blk1
+                break
+        if rel is None:
+            outside.append(f"{rel0}:{line}")
+            continue
+        b0 = blk[-1]
+        unit = L[b0][len(BEGIN):].strip()
+        # ordinal among this unit's append blocks in this file
+        ordinal = len([i for i in starts if i < b0 and L[i][len(BEGIN):].strip() == unit])
+        # inside a harness region (//@harness line .. closing brace of its fn)?
+        name = None
+        for (i, k, hname, _t) in _harness_regions(L):
+            if i <= idx <= k:
+                name = hname
+                break
+        if name and name in harness_names:
+            drop_h.add(name)
+        else:
+            drop_b.add((unit, rel, ordinal))
+    return drop_h, drop_b, outside
 
 
 def strip(text):
